@@ -47,7 +47,7 @@ def bounds(tier):
 def required_guards(tier):
     return ['outcome:ok-untouched', 'outcome:resolved', 'outcome:read-conflict',
             'outcome:unresolved', 'reason:13', 'reason:12', 'readcurrent_checked',
-            'pure_reads_checked', 'c:height>=3', 'py:height>=3', 'subclass_tree']
+            'pure_reads_checked', 'c:height>=3', 'py:height>=3', 'subclass_tree', 'write_into_ghost_tree']
 
 
 def configs(tier):
@@ -144,10 +144,19 @@ def descent_path(t, key):
 def apply_logged(ctx, conn, t, op, rep, guards, case):
     """Apply a write on a connection and check its read-dependency declarations."""
     tree_nodes = []
+    look = t
+    if t._p_state == -1:
+        # the write is the connection's first touch of the tree: the nodes must still be GHOSTS when it
+        # arrives (a declaration made before the node is loaded is silently dropped by the persistence
+        # layer), so the descent path is read off a scout connection at the same snapshot
+        scout = M.Connection(conn.storage)
+        scout.snapshot = conn.snapshot
+        look = scout.get(t._p_oid)
+        guards['write_into_ghost_tree'] += 1
     if op[0] != 'clear':
-        tree_nodes = descent_path(t, op[1])
+        tree_nodes = descent_path(look, op[1])
     else:
-        tree_nodes = [t] if len(t) else []     # clearing an empty tree writes nothing
+        tree_nodes = [look] if len(look) else []     # clearing an empty tree writes nothing
     stored = [n for n in tree_nodes if n._p_oid is not None]
     conn.log = []
     r = O.apply_sut(ctx, t, op)
